@@ -2,8 +2,8 @@
 #ifndef DS_LIN_H
 #define DS_LIN_H
 #include <stdint.h>
-#define LIN_MAXOPS 28
-#define LIN_STATE_WORDS 4
+#define LIN_MAXOPS 60
+#define LIN_STATE_WORDS 8
 
 struct lin_state { uint64_t w[LIN_STATE_WORDS]; };	/* model state: small, copyable, compared bytewise */
 struct lin_op {
@@ -11,6 +11,7 @@ struct lin_op {
 	long a, b, c;		/* arguments */
 	long r, r2;		/* results */
 	unsigned long call, ret;	/* logical steps; ret = ~0ul for an operation that never returned */
+	int dep;		/* 0, or 1 + index of an operation that must be linearised before this one (two-step operations) */
 };
 /* sequential specification: apply op to *s; return 1 if the recorded result is one the specification allows in state *s
  * (and update *s), 0 otherwise */
